@@ -1,9 +1,11 @@
 package sql
 
 import (
-	"fmt"
-	"os"
 	"bufio"
+	"fmt"
+	rsql "github.com/rqlite/sql"
+	"os"
+	"strings"
 	"testing"
 
 	"github.com/rqlite/rqlite/v10/command/proto"
@@ -23,6 +25,10 @@ func TestVerifProbe_C14(t *testing.T) {
 		}
 		st := []*proto.Statement{{Sql: s}}
 		err := Process(st, true, true)
+		_, perr := rsql.NewParser(strings.NewReader(s)).ParseStatement()
+		if perr != nil {
+			fmt.Printf("PARSE-ERR: %v\n", perr)
+		}
 		fmt.Printf("IN : %s\nOUT: %s   (err=%v fq=%v ex=%v same=%v)\n\n", s, st[0].Sql, err, st[0].ForceQuery, st[0].SqlExplain, s == st[0].Sql)
 	}
 }
